@@ -15,20 +15,22 @@ Lemma veq_sym u v : veq u v -> veq v u. Proof. intros H k; symmetry; apply H. Qe
 Lemma veq_trans u v w : veq u v -> veq v w -> veq u w.
 Proof. intros H1 H2 k; rewrite (H1 k); apply H2. Qed.
 
+(* Results are kept in lowest terms (Qred) so that the models stay cheap to run by vm_compute;
+   Qred q == q, so every statement below is about the plain operations. *)
 (* u + v, the longer operand is kept (numpy adds arrays of equal shape) *)
 Fixpoint vadd (u v : list Q) : list Q :=
   match u, v with
   | [], _ => v
   | _, [] => u
-  | x :: r, y :: s => (x + y) :: vadd r s
+  | x :: r, y :: s => Qred (x + y) :: vadd r s
   end.
 
-Definition vscale (c : Q) (v : list Q) : list Q := map (Qmult c) v.
+Definition vscale (c : Q) (v : list Q) : list Q := map (fun x => Qred (c * x)) v.
 Definition vzero (m : nat) : list Q := repeat 0 m.
 
 Fixpoint dot (r v : list Q) : Q :=
   match r, v with
-  | x :: r', y :: v' => x * y + dot r' v'
+  | x :: r', y :: v' => Qred (x * y + dot r' v')
   | _, _ => 0
   end.
 
@@ -43,13 +45,13 @@ Proof.
   induction u as [|x r IH]; intros v k.
   - cbn [vadd]. rewrite qn_nil. ring.
   - destruct v as [|y s]; [cbn [vadd]; rewrite qn_nil; ring|].
-    destruct k; [simpl; reflexivity|]. simpl. apply IH.
+    destruct k; [cbn [vadd nth]; apply Qred_correct|]. cbn [vadd nth]. apply IH.
 Qed.
 
 Lemma qn_vscale c : forall v k, qn k (vscale c v) == c * qn k v.
 Proof.
   induction v as [|x r IH]; intro k; [cbn [vscale map]; rewrite qn_nil; ring|].
-  destruct k; [simpl; reflexivity | simpl; apply IH].
+  destruct k; [cbn [vscale map nth]; apply Qred_correct | cbn [vscale map nth]; apply IH].
 Qed.
 
 Lemma qn_vzero m k : qn k (vzero m) = 0.
@@ -74,33 +76,37 @@ Qed.
 Lemma dot_nil_r r : dot r [] = 0.
 Proof. destruct r; reflexivity. Qed.
 
+Lemma dot_cons x r y v : dot (x :: r) (y :: v) == x * y + dot r v.
+Proof. cbn [dot]. apply Qred_correct. Qed.
+
 Lemma dot_veq : forall r u v, veq u v -> dot r u == dot r v.
 Proof.
   induction r as [|x r IH]; intros u v H; [reflexivity|].
-  destruct u as [|a u], v as [|b v]; simpl.
+  destruct u as [|a u], v as [|b v].
   - reflexivity.
-  - pose proof (H 0%nat) as H0. simpl in H0. rewrite <- H0.
-    rewrite <- (IH [] v); [rewrite dot_nil_r; ring|].
-    intro k. specialize (H (S k)). simpl in H. rewrite <- H. destruct k; reflexivity.
-  - pose proof (H 0%nat) as H0. simpl in H0. rewrite H0.
-    rewrite (IH u []); [rewrite dot_nil_r; ring|].
-    intro k. specialize (H (S k)). simpl in H. rewrite H. destruct k; reflexivity.
-  - pose proof (H 0%nat) as H0. simpl in H0. rewrite H0.
+  - pose proof (H 0%nat) as H0. cbn [nth] in H0. rewrite dot_cons, <- H0.
+    rewrite <- (IH [] v); [rewrite !dot_nil_r; ring|].
+    intro k. specialize (H (S k)). cbn [nth] in H. rewrite <- H. destruct k; reflexivity.
+  - pose proof (H 0%nat) as H0. cbn [nth] in H0. rewrite dot_cons, H0.
+    rewrite (IH u []); [rewrite !dot_nil_r; ring|].
+    intro k. specialize (H (S k)). cbn [nth] in H. rewrite H. destruct k; reflexivity.
+  - pose proof (H 0%nat) as H0. cbn [nth] in H0. rewrite !dot_cons, H0.
     rewrite (IH u v); [reflexivity|]. intro k. apply (H (S k)).
 Qed.
 
 Lemma dot_vadd : forall r u v, dot r (vadd u v) == dot r u + dot r v.
 Proof.
-  induction r as [|x r IH]; intros u v; [simpl; ring|].
-  destruct u as [|a u]; [simpl; ring|].
-  destruct v as [|b v]; [simpl; ring|].
-  simpl. rewrite IH. ring.
+  induction r as [|x r IH]; intros u v; [cbn [dot]; ring|].
+  destruct u as [|a u]; [cbn [vadd]; rewrite dot_nil_r; ring|].
+  destruct v as [|b v]; [cbn [vadd]; rewrite dot_nil_r; ring|].
+  cbn [vadd]. rewrite !dot_cons, IH, Qred_correct. ring.
 Qed.
 
 Lemma dot_vscale c : forall r v, dot r (vscale c v) == c * dot r v.
 Proof.
-  induction r as [|x r IH]; intro v; [simpl; ring|].
-  destruct v as [|b v]; [simpl; ring|]. simpl. rewrite IH. ring.
+  induction r as [|x r IH]; intro v; [cbn [dot]; ring|].
+  destruct v as [|b v]; [cbn [vscale map]; rewrite dot_nil_r; ring|].
+  cbn [vscale map]. rewrite !dot_cons. fold (vscale c v). rewrite IH, Qred_correct. ring.
 Qed.
 
 Lemma matvec_vadd A u v : veq (matvec A (vadd u v)) (vadd (matvec A u) (matvec A v)).
@@ -126,7 +132,7 @@ Definition diag (x : list Q) : list (list Q) :=
 Lemma dot_zeros (f : nat -> Q) : forall l v, (forall j, In j l -> f j == 0) -> dot (map f l) v == 0.
 Proof.
   induction l as [|a l IH]; intros v H; [reflexivity|].
-  destruct v as [|y v]; [reflexivity|]. simpl.
+  destruct v as [|y v]; [reflexivity|]. cbn [map]. rewrite dot_cons.
   rewrite (H a (or_introl eq_refl)), IH; [ring|]. intros; apply H; right; assumption.
 Qed.
 
@@ -134,14 +140,14 @@ Lemma dot_indicator xk k : forall m s v, (s <= k < s + m)%nat ->
   dot (map (fun j => if Nat.eqb j k then xk else 0) (seq s m)) v == xk * qn (k - s) v.
 Proof.
   induction m as [|m IH]; intros s v H; [lia|].
-  simpl. destruct v as [|y v].
-  - rewrite qn_nil. ring.
-  - destruct (Nat.eqb s k) eqn:E.
-    + apply Nat.eqb_eq in E. subst. replace (k - k)%nat with 0%nat by lia. simpl.
+  cbn [seq map]. destruct v as [|y v].
+  - rewrite dot_nil_r, qn_nil. ring.
+  - rewrite dot_cons. destruct (Nat.eqb s k) eqn:E.
+    + apply Nat.eqb_eq in E. subst. replace (k - k)%nat with 0%nat by lia. cbn [nth].
       rewrite dot_zeros; [ring|]. intros j Hj. apply in_seq in Hj.
       destruct (Nat.eqb j k) eqn:E'; [apply Nat.eqb_eq in E'; lia | reflexivity].
     + apply Nat.eqb_neq in E. rewrite IH by lia. replace (k - s)%nat with (S (k - S s)) by lia.
-      simpl. ring.
+      cbn [nth]. ring.
 Qed.
 
 Lemma nth_map_seq {A} (f : nat -> A) d : forall m s k, (k < m)%nat -> nth k (map f (seq s m)) d = f (s + k)%nat.
